@@ -616,7 +616,7 @@ func TestOpsRandom(t *testing.T) {
 			names = append(names, op.name)
 		}
 	}
-	vk.Run(t, "rand/small", vk.Opts{Quick: 20000, Thorough: 400000, NoCrumb: true}, func(t *rapid.T) opCase {
+	vk.Run(t, "rand/small", vk.Opts{Quick: 60000, Thorough: 600000, NoCrumb: true}, func(t *rapid.T) opCase {
 		op := opByID[rapid.SampledFrom(names).Draw(t, "op")]
 		return drawCase(t, op, 8)
 	}, checkOpSub("rand/small"))
@@ -629,7 +629,7 @@ func TestOpsRandomBig(t *testing.T) {
 			names = append(names, op.name)
 		}
 	}
-	vk.Run(t, "rand/big", vk.Opts{Quick: 1600, Thorough: 40000}, func(t *rapid.T) opCase {
+	vk.Run(t, "rand/big", vk.Opts{Quick: 3000, Thorough: 60000}, func(t *rapid.T) opCase {
 		op := opByID[rapid.SampledFrom(names).Draw(t, "op")]
 		return drawCase(t, op, 200)
 	}, checkOpSub("rand/big"))
